@@ -68,8 +68,8 @@ def run(ctx):
           ("Metadata.mc.conc3.cfg" if thorough else "Metadata.mc.conc2.cfg", "conc")]
     # (cfg, simulate, depth, keep at most): exhaustive enumerations larger than `keep` are sampled with the seed
     if thorough:
-        gens = [("Metadata.gen.content2.cfg", None, None, None),
-                ("Metadata.gen.reach1.cfg", None, None, None),
+        gens = [("Metadata.gen.content2.cfg", None, None, 30000),
+                ("Metadata.gen.reach1.cfg", None, None, 12000),
                 ("Metadata.gen.silent1.cfg", None, None, 40),
                 ("Metadata.gen.content3.cfg", "num=8000", 40, 8000),
                 ("Metadata.gen.reach3.cfg", "num=4000", 60, 4000),
